@@ -290,6 +290,19 @@ def oracle(case, out, explicit_cm2=False):
     return fails
 
 
+WHAT = {
+    "time": "the simulated time is not advanced by exactly one time step per update",
+    "static-moved": "a node of a static cell was moved",
+    "static-changed": "the dynamic state of a slot of a static cell was modified",
+    "unused-changed": "an unused node slot was modified",
+    "position": "the position of a live node differs from the documented law",
+    "momentum": "the momentum of a live node differs from the documented law",
+    "force-not-reset": "an integrated node keeps a non-zero force accumulator",
+    "pair-displacement": "the two nodes of a mutually coupled pair received different displacements",
+    "pair-momentum": "the total momentum of a mutually coupled pair is not the documented one",
+}
+
+
 # ---------------------------------------------------------------- corpus (kept failing inputs / hand-made shapes)
 def _mk(cm, dm, cells, dt=0.5, damping=1.0, nsteps=1, cls="P"):
     cs = []
@@ -359,6 +372,7 @@ def run(ctx):
              "roles": {}, "classes": {"P": 0, "M": 0}, "per_config": {}, "multi_thread_cases": 0}
     samples = []
     distinct = set()
+    reported = set()
     rebuilt_total = 0
     compiled = []
     for (cm, dm) in CONFIGS:
@@ -403,15 +417,17 @@ def run(ctx):
             fails = oracle(c, o)
             if fails:
                 stats["oracle_failures"] += 1; pc["oracle_failures"] += 1
-                known = False
-                if cm == 2 and dm == 0 and all(w == "position" for w, _ in fails) and not oracle(c, o, explicit_cm2=True):
-                    known = True       # exactly the recorded finding: explicit instead of semi-implicit Euler
-                if pc["oracle_failures"] <= 2 or not known:
-                    for w, d in fails[:2]:
-                        V.fail_input("CM=%d DM=%d %s: %s" % (cm, dm, w, d) if not known else
-                                     "CM=2 DM=0: positions are advanced with the pre-update momentum (explicit, not semi-implicit Euler)",
-                                     {"line": lines[i], "cm": cm, "dm": dm, "nsteps": c["nsteps"], "what": w, "detail": d},
-                                     key=KEY_CM2 if known else None)
+                known = (cm == 2 and dm == 0 and all(w == "position" for w, _ in fails)
+                         and not oracle(c, o, explicit_cm2=True))    # exactly the recorded finding, nothing else
+                for w, d in fails:
+                    cat = (cm, dm, "known" if known else w)
+                    if cat in reported:
+                        continue
+                    reported.add(cat)         # one replay per configuration and kind of failure: the first (smallest) case
+                    what = ("CM=2 DM=0: positions are advanced with the pre-update momentum (explicit, not semi-implicit Euler)"
+                            if known else "CM=%d DM=%d: %s" % (cm, dm, WHAT[w]))
+                    V.fail_input(what, {"line": lines[i], "cm": cm, "dm": dm, "nsteps": c["nsteps"], "kind": w, "detail": d},
+                                 key=KEY_CM2 if known else None)
             if model is not None:
                 mo = parse_out(model[i], c)
                 if mo is None:
